@@ -81,13 +81,29 @@ def rule_negsugar(crate):
         out.analysed = {"produced_functions": produced, "negate_arms": 0}
         return out
     n = 0
+    # the code that prints a negation: the arm `UnaryOperator { op: Negate, .. }`, or the `Negate` arm of a match on
+    # the operator inside a common `UnaryOperator { op, .. }` arm
+    scopes = []
     for m in walk(pp["body"]):
         if m.get("k") != "Match" or str(m.get("src")) != "Normal":
             continue
         for a in m["arms"]:
             vs = pat_variants(a["pat"], TYPED_E)
-            if vs != {"UnaryOperator"} or not any(p.get("variant") == "Negate" for p in walk(a["pat"])):
+            if vs != {"UnaryOperator"}:
                 continue
+            if any(p.get("variant") == "Negate" for p in walk(a["pat"])):
+                scopes.append(a)
+                continue
+            for m2 in walk(a["body"]):
+                if m2.get("k") == "Match" and str(m2.get("src")) == "Normal":
+                    for a2 in m2["arms"]:
+                        top = a2["pat"]
+                        while top.get("k") in ("Ref", "Deref"):
+                            top = top["pat"]
+                        if top.get("variant") == "Negate" and str(top.get("adt", "")).endswith("UnaryOperator"):
+                            scopes.append(a2)
+    if True:
+        for a in scopes:
             n += 1
             af, al = crate.loc(pp, a["pat"])
             tests = set()
